@@ -100,6 +100,10 @@ pub fn build_stream(segs: &[Seg]) -> Vec<u8> {
     out
 }
 
+fn rng_bool(r: &mut crate::rng::Rng) -> bool {
+    r.below(2) == 0
+}
+
 fn frame_range(buf: &[u8], mf: &MessageFrame) -> (usize, usize) {
     let base = buf.as_ptr() as usize;
     let p = mf.frame_data().as_ptr() as usize;
@@ -310,13 +314,13 @@ pub fn run(ctx: &Ctx, replay: Option<&J>, chunked: bool) -> CheckResult {
     let rule = if !chunked {
         "proptest-generated buffers of up to 6 segments {valid frame (payload 0..=1023, random reserved bits), garbage, lone 0xD3, \
          header announcing a long body, frame with one flipped bit, truncated frame, frame nested in the payload of a valid/invalid outer \
-         candidate, D3-rich bytes}, plus an enumeration of all 65536 (reserved bits, length) header patterns as valid frames inside buffers longer than a maximum-length frame; oracle: next_msg_frame == reference scanner (consumed, presence, exact byte range), consumed<=len, every \
+         candidate, D3-rich bytes}, plus an enumeration of all 65536 (reserved bits, length) header patterns as valid frames inside buffers longer than a maximum-length frame, and streams of 66-200 KB (total lengths around 2^16 and 2^17); oracle: next_msg_frame == reference scanner (consumed, presence, exact byte range), consumed<=len, every \
          skipped 0xD3 is a complete wrong-CRC candidate, MsgFrameIter yields the reference frame list/consumed total and terminates. \
          non-trivial = >=2 segment kinds and a 0xD3 before the delivered frame or an incomplete candidate; distinct = hash of the buffer"
             .to_string()
     } else {
         "C05 streams x chunk schedules {one-byte chunks, random cut positions incl. duplicates (empty chunks), cuts forced at \
-         preamble/length/payload/checksum offsets of 0xD3 candidates}; oracle (model-based history): two caller loops (append chunk; either call next_msg_frame until \
+         preamble/length/payload/checksum offsets of 0xD3 candidates}, plus streams of 66-150 KB fed in small chunks, in 64 KiB chunks and at once; oracle (model-based history): two caller loops (append chunk; either call next_msg_frame until \
          no frame or run a MsgFrameIter and use consumed(); drop the consumed bytes) gives the same delivered frames and total consumed as one-shot scanning and as the reference model. \
          non-trivial = >=1 cut strictly inside a frame that is delivered; distinct = hash of (stream, cuts)"
             .to_string()
@@ -438,6 +442,46 @@ pub fn run(ctx: &Ctx, replay: Option<&J>, chunked: bool) -> CheckResult {
             }
         }
         ev.class_n("enumerated/all-65536-header-patterns-in-long-buffers", 65536);
+        // long streams: more than 64 KiB / 128 KiB of back-to-back frames with some garbage in between
+        let longs: Vec<(Evidence, Vec<Violation>)> = (0..ctx.n(12, 200) as usize)
+            .into_par_iter()
+            .map(|i| {
+                let mut ev = Evidence::new();
+                let mut vs = Vec::new();
+                let mut rng = ctx.rng("c05-long", i as u64);
+                let target = [66_000usize, 70_000, 131_500, 200_000][i % 4];
+                let mut buf: Vec<u8> = Vec::with_capacity(target + 1100);
+                while buf.len() < target {
+                    let l = match rng.below(4) { 0 => rng.below(1024) as usize, 1 => 0, _ => rng.below(120) as usize };
+                    let rb = rng_bool(&mut rng);
+                    buf.extend(crate::pool::random_frame(&mut rng, l, rb));
+                    if rng.below(5) == 0 {
+                        let g = rng.bytes_len(1, 9);
+                        buf.extend(g);
+                    }
+                }
+                // exact total lengths around the 2^16 wrap points
+                if i % 3 == 0 {
+                    let t = if target < 100_000 { 65_536 + (i % 7) } else { 131_072 + (i % 7) };
+                    buf.truncate(t.max(1));
+                }
+                ev.evaluations += 1;
+                match oracle_scan(&buf) {
+                    Ok(()) => ev.nontrivial_bytes(&buf[..64.min(buf.len())]),
+                    Err((sig, msg)) => vs.push(Violation { property: "C05".into(), signature: sig, message: format!("stream of {} bytes: {}", buf.len(), msg), case: json!({"kind":"stream","bytes":hex(&buf),"segments":["long-stream"]}) }),
+                }
+                (ev, vs)
+            })
+            .collect();
+        for (e, v) in longs {
+            ev.merge(e);
+            for x in v {
+                if !vs.iter().any(|y: &Violation| y.signature == x.signature) {
+                    vs.push(x);
+                }
+            }
+        }
+        ev.class_n("long-streams(>64KiB)", ctx.n(12, 200));
         return CheckResult { evidence: ev, rule, assumptions, violations: vs };
     }
     let cases = ctx.n(1_000_000, 30_000_000);
@@ -487,5 +531,45 @@ pub fn run(ctx: &Ctx, replay: Option<&J>, chunked: bool) -> CheckResult {
             json!({"kind":"chunked-stream","bytes":hex(&stream),"cuts":cuts})
         },
     );
+    let (mut ev, mut vs) = (ev, vs);
+    // long streams (> 64 KiB) fed in chunks of a few KiB, in 64 KiB chunks and at once
+    for i in 0..ctx.n(8, 100) {
+        let mut rng = ctx.rng("c06-long", i);
+        let target = [66_000usize, 131_500, 150_000][(i % 3) as usize];
+        let mut stream: Vec<u8> = Vec::with_capacity(target + 1100);
+        while stream.len() < target {
+            let l = match rng.below(4) { 0 => rng.below(1024) as usize, _ => rng.below(100) as usize };
+            let r = rng_bool(&mut rng);
+            stream.extend(crate::pool::random_frame(&mut rng, l, r));
+            if rng.below(6) == 0 {
+                let g = rng.bytes_len(1, 7);
+                stream.extend(g);
+            }
+        }
+        let mut cuts: Vec<usize> = Vec::new();
+        match i % 3 {
+            0 => {
+                let mut c = 0;
+                while c < stream.len() {
+                    c += 1 + rng.below(4096) as usize;
+                    cuts.push(c.min(stream.len()));
+                }
+            }
+            1 => cuts = vec![65_536.min(stream.len()), 65_537.min(stream.len())],
+            _ => cuts = vec![stream.len() / 2],
+        }
+        ev.evaluations += 1;
+        match oracle_chunks(&stream, &cuts) {
+            Ok(()) => {
+                ev.class("long-stream(>64KiB)");
+                ev.nontrivial_bytes(&stream[..64]);
+            }
+            Err((sig, msg)) => {
+                if !vs.iter().any(|y: &Violation| y.signature == sig) {
+                    vs.push(Violation { property: "C06".into(), signature: sig, message: format!("stream of {} bytes, {} cuts: {}", stream.len(), cuts.len(), msg), case: json!({"kind":"chunked-stream","bytes":hex(&stream),"cuts":cuts}) });
+                }
+            }
+        }
+    }
     CheckResult { evidence: ev, rule, assumptions, violations: vs }
 }
